@@ -371,6 +371,10 @@ class MultiTypeMap(dict):
     def __missing__(self, obj_t_tup):
         if obj_t_tup and isinstance(obj_t_tup[0], CodeType):
             real_tup = obj_t_tup[1:]
+            if not real_tup:
+                # call_next() without arguments: there is nothing below the
+                # method registered for the empty call
+                raise self.key_error(real_tup, ())
             self[real_tup]
             if obj_t_tup[0] not in self.all[real_tup]:
                 return self[real_tup]
